@@ -55,7 +55,8 @@ FailedFinal(s, o) ==
       (IF SeqToSet(o.bonds) = mb /\ Len(o.bonds) = Cardinality(mb) THEN {} ELSE {"bonds"}) \cup
       (IF o.open = OpenAtoms(s.main) THEN {} ELSE {"open"}) \cup
       (IF o.full = (s.main.open = <<>>) THEN {} ELSE {"fully-generated-flag"}) \cup
-      (IF o.mass = s.main.mass THEN {} ELSE {"mass"})
+      \* masses are integers in mDa; isotope-labelled atoms have more than three decimals: half a mDa per residue of rounding
+      (IF 2 * (o.mass - s.main.mass) <= Len(s.main.res) /\ 2 * (s.main.mass - o.mass) <= Len(s.main.res) THEN {} ELSE {"mass"})
 FailedObs(s, o) ==
    CASE o.kind = "none"  -> {}
      [] o.kind = "unsanitizable" -> {"sanitisation"}
